@@ -83,13 +83,36 @@ def pin_configs(country: str, tier: str):
                     impossible.append(i)
             for i in dict.fromkeys(wanted + impossible[:3]):
                 out.append(dict(base, account_code=base["account_code"][:-2] + f"{i:02d}", _default_run_only=True))
+    # pins that CANNOT appear unchanged: right length but a character of the wrong class (the only
+    # demand: no invalid object comes back, nothing but library errors escape); a bank code pinned in
+    # its combined bank+branch form next to a DIFFERENT branch pin (the branch pin fits its field and
+    # must be honoured); a listed multi-component key pinned as the bank code (PL, SI: the draw must
+    # stay with that listed bank)
+    c = reg.countries()[country]
+    cl = bases.classes_of(c)
+    for comp in main:
+        s0, s1 = c.span(comp)
+        good = pin_value(country, comp, "distinct")
+        wrong = "A" if cl[s1 - 1] == "n" else "5" if cl[s1 - 1] == "a" else "-"
+        out.append({comp: good[:-1] + wrong, "_default_run_only": True, "_only_no_invalid_object": True})
+    if "bank_code" in main and "branch_code" in main:
+        b, r = pin_value(country, "bank_code", "distinct"), pin_value(country, "branch_code", "distinct")
+        other = pin_value(country, "branch_code", "max")
+        if other != r:
+            out.append({"bank_code": b + r, "branch_code": other, "_default_run_only": True,
+                        "_not_demanded": ["bank_code"]})
+    if len(c.lookup_components) > 1 and "bank_code" in main:
+        keys = sorted(k for (cc_, k) in lookup.by_key() if cc_ == country)
+        for key in keys[:: max(1, len(keys) // 3)][:3]:
+            out.append({"bank_code": key, "_default_run_only": True, "_not_demanded": ["bank_code"],
+                        "_listed_key": key})
     if tier == "thorough":
         for r in range(2, len(comps)):
             for sub in itertools.combinations(comps, r):
                 out.append({comp: pin_value(country, comp, "max") for comp in sub})
     seen, uniq = set(), []
     for cfg in out:
-        key = tuple(sorted(cfg.items()))
+        key = tuple(sorted((k, str(v)) for k, v in cfg.items()))
         if key not in seen:
             seen.add(key)
             uniq.append(cfg)
@@ -101,12 +124,15 @@ def all_entries_have_bank_code(country: str) -> bool:
     return bool(es) and all(e.get("bank_code") for e in es)
 
 
-def judge_result(country: str, use_registry: bool, pins: dict, outcome):
+def judge_result(country: str, use_registry: bool, pins: dict, outcome, opts: dict | None = None):
     """-> None or (signature, expected, observed)"""
+    opts = opts or {}
     k, v = outcome
     if k == "foreign":
         return (f"foreign-exception-escapes:{v}", "IBAN or GenerateRandomOverflowError", (k, v))
     if k == "lib":
+        if opts.get("_only_no_invalid_object"):
+            return None
         if v != "GenerateRandomOverflowError":
             return (f"undocumented-error:{v}", "IBAN or GenerateRandomOverflowError", (k, v))
         return None
@@ -117,7 +143,11 @@ def judge_result(country: str, use_registry: bool, pins: dict, outcome):
         return ("wrong-country", country, s)
     cc = s[:2]
     c = reg.countries()[cc]
+    if opts.get("_listed_key") and c.lookup_key(s[4:]) != opts["_listed_key"]:
+        return ("pinned-listed-key-not-honoured", opts["_listed_key"], s)
     for comp, val in pins.items():
+        if comp in opts.get("_not_demanded", ()):
+            continue
         if c.component(s[4:], comp) != val or getattr(v, comp) != val:
             return (f"pinned-{comp}-not-honoured", {comp: val}, {"iban": s, comp: getattr(v, comp)})
     key_is_bank_code_only = c.lookup_components == ["bank_code"]
@@ -133,7 +163,7 @@ def draw(country: str, use_registry: bool, pins: dict, rnd, bban_only=False):
     return lib.outcome(lambda: fn(country, random=rnd, use_registry=use_registry, **pins))
 
 
-def explore_config(part, country, use_registry, pins, bound, alts, tag):
+def explore_config(part, country, use_registry, pins, bound, alts, tag, opts=None):
     def run(ch):
         return draw(country, use_registry, pins, choice.ScriptedRandom(ch))
 
@@ -143,13 +173,13 @@ def explore_config(part, country, use_registry, pins, bound, alts, tag):
         part.count((tag, ch.answers))
         npoints = max(npoints, len(ch.trace))
         outcomes.add(str(out[1]) if out[0] == "ok" else out)
-        bad = judge_result(country, use_registry, pins, out)
+        bad = judge_result(country, use_registry, pins, out, opts)
         if bad:
             sig, exp, obs = bad
             part.violation(f"{sig} [{'registry' if use_registry else 'no-registry'}"
                            f"{', pinned ' + '+'.join(sorted(pins)) if pins else ''}]",
                            {"kind": "c13script", "country": country, "use_registry": use_registry,
-                            "pins": pins, "answers": list(ch.answers)}, exp, obs)
+                            "pins": pins, "answers": list(ch.answers), "opts": opts or {}}, exp, obs)
     part.stat("configurations")
     part.stat("distinct_outcomes", len(outcomes))
     return npoints, len(outcomes)
@@ -177,13 +207,14 @@ def script_shard(args):
         return part.done()
     pins = dict((pin_configs(country, tier) if country else [{}])[cfg_i])
     default_only = pins.pop("_default_run_only", False)
+    opts = {k: pins.pop(k) for k in list(pins) if k.startswith("_")}
     full = not pins  # every alternative at every choice point only in the unpinned form
     alts = choice.all_alternatives if full else choice.reduced_alternatives(12)
     tag = (country, use_registry, tuple(sorted(pins.items())))
     if default_only:
         # everything that matters is pinned: the default run and single deviations over 3 alternatives
         explore_config(part, country, use_registry, pins, 1 if tier == "thorough" else 0,
-                       choice.reduced_alternatives(3), tag)
+                       choice.reduced_alternatives(3), tag + (str(sorted(opts)),), opts)
         return part.done()
     np_, no_ = explore_config(part, country, use_registry, pins, 1, alts, tag)
     if tier == "thorough":
@@ -273,13 +304,13 @@ def replay(case: dict) -> dict:
     if case["kind"] == "c13script":
         ch = choice.Chooser(tuple(case["answers"]))
         out = draw(case["country"], case["use_registry"], case["pins"], choice.ScriptedRandom(ch))
-        bad = judge_result(case["country"], case["use_registry"], case["pins"], out)
+        bad = judge_result(case["country"], case["use_registry"], case["pins"], out, case.get("opts"))
         # is there a real seed showing the same failure?
         real = None
         if bad:
             for s in range(300):
                 o = draw(case["country"], case["use_registry"], case["pins"], random.Random(s))
-                if judge_result(case["country"], case["use_registry"], case["pins"], o):
+                if judge_result(case["country"], case["use_registry"], case["pins"], o, case.get("opts")):
                     real = s
                     break
         return {"ok": not bad, "observed": bad and bad[2], "expected": bad and bad[1],
